@@ -27,6 +27,8 @@ mod facts;
 mod k_resp;
 #[cfg(feature = "k_dflt")]
 mod k_dflt;
+#[cfg(feature = "k_enum")]
+mod k_enum;
 
 pub type OpResult = Result<Value, String>;
 
@@ -49,6 +51,8 @@ fn dispatch(op: &str, input: &mut Value) -> OpResult {
     "interop" => k_resp::eval_interop(op, input),
     #[cfg(feature = "k_dflt")]
     "dflt" => k_dflt::eval(op, input),
+    #[cfg(feature = "k_enum")]
+    "enum" => k_enum::eval(op, input),
     _ => Err(format!("unknown-op:{op}")),
   }
 }
